@@ -71,4 +71,10 @@ ProfFault == [Base EXCEPT !.methods = {"pt", "vals", "link"}, !.consts = {<<"int
                 !.aggs = {"Count"}, !.first = TRUE, !.index = TRUE, !.rows = {"bool", "seq"},
                 !.evwhere = TRUE]
 
+\* C04, second profile: guards (and/or, conditional) around First() with the guarded value used inside something
+\* larger (a function call: its value is placed at the scope current when it is translated), over a minimal alphabet so that the bound reaches 13 tokens exhaustively
+ProfGuard == [Base EXCEPT !.methods = {"pt"}, !.consts = {<<"int", 0, 1>>}, !.cmpops = {">", "=="}, !.boolops = {"And", "Or"},
+                !.ifexp = TRUE, !.aggs = {"Count"}, !.first = TRUE, !.math = {<<"fabs", 1>>}, !.rows = {"bool"},
+                !.select = FALSE, !.where = FALSE]
+
 =============================================================================
